@@ -131,6 +131,7 @@ type Options struct {
 	StepHorizon     int           // abort an execution after this many scheduling steps
 	SelectChoice    bool          // choosing a later ready select arm is offered as a deviation
 	FreeTimers      bool          // a short timer firing early costs no deviation (programs about time-outs)
+	UnlockPoints    bool          // every Unlock / RUnlock is followed by a scheduling point (release points)
 }
 
 var Opt = Options{LongTimer: time.Second, StepHorizon: 200000, TimerDeviations: true, SelectChoice: true}
